@@ -7,7 +7,29 @@ import "sort"
 // execute", "is this dependency available". It never re-implements dig's
 // traversal order.
 
+// reSpec: the function's body (or callback) issues a nested request for Key on
+// scope Scope while it runs (re-entrant user code).
+type reSpec struct {
+	Key   Key
+	Scope int
+}
+
+func reSpecOf(f *Func, home int) *reSpec {
+	if !f.Reenter || f.Role == RoleInv {
+		return nil
+	}
+	if f.ReKey != nil {
+		return &reSpec{*f.ReKey, f.ReScope}
+	}
+	lr := f.LeafResults()
+	if len(lr) == 0 || len(lr[0].Keys) == 0 {
+		return nil
+	}
+	return &reSpec{lr[0].Keys[0], home}
+}
+
 type MCtor struct {
+	Re           *reSpec
 	Fn, Op       int
 	Home, Origin int
 	LP           []LeafParam
@@ -17,6 +39,7 @@ type MCtor struct {
 }
 
 type MDec struct {
+	Re     *reSpec
 	Fn, Op int
 	Scope  int
 	LP     []LeafParam
@@ -241,7 +264,7 @@ func (m *Model) AddCtor(scope, op int, f *Func) *MCtor {
 	if f.Export {
 		target = 0
 	}
-	c := &MCtor{Fn: f.ID, Op: op, Home: target, Origin: scope, LP: f.LeafParams(), LR: f.LeafResults()}
+	c := &MCtor{Fn: f.ID, Op: op, Home: target, Origin: scope, LP: f.LeafParams(), LR: f.LeafResults(), Re: reSpecOf(f, target)}
 	m.link(c)
 	m.ByFn[f.ID] = c
 	m.stackMemo = nil
@@ -262,7 +285,7 @@ func (m *Model) PredictDecorate(scope int, f *Func) Pred {
 }
 
 func (m *Model) AddDec(scope, op int, f *Func) *MDec {
-	d := &MDec{Fn: f.ID, Op: op, Scope: scope, LP: f.LeafParams(), LR: f.LeafResults()}
+	d := &MDec{Fn: f.ID, Op: op, Scope: scope, LP: f.LeafParams(), LR: f.LeafResults(), Re: reSpecOf(f, scope)}
 	for _, r := range d.LR {
 		for _, k := range r.Keys {
 			m.S[scope].Dec[k] = d
@@ -411,6 +434,9 @@ func (m *Model) permClosure(c Consumer, lp []LeafParam) map[int]bool {
 				if !out[d.Fn] {
 					out[d.Fn] = true
 					params(Consumer{Scope: d.Scope, Self: d, Fn: d.Fn}, d.LP)
+					if d.Re != nil && d.Re.Scope < len(m.S) {
+						params(Consumer{Scope: d.Re.Scope, Fn: d.Fn}, []LeafParam{{Key: d.Re.Key, Obj: -1}})
+					}
 				}
 			}
 			var ns []*MCtor
@@ -423,6 +449,9 @@ func (m *Model) permClosure(c Consumer, lp []LeafParam) map[int]bool {
 				if !out[n.Fn] {
 					out[n.Fn] = true
 					params(Consumer{Scope: n.Origin, Fn: n.Fn}, n.LP)
+					if n.Re != nil && n.Re.Scope < len(m.S) {
+						params(Consumer{Scope: n.Re.Scope, Fn: n.Fn}, []LeafParam{{Key: n.Re.Key, Obj: -1}})
+					}
 				}
 			}
 		}
@@ -628,6 +657,7 @@ type Closure struct {
 	Fns       map[int]bool
 	Decorated bool // a decorator was met: the lower bound is not claimed
 	Loop      bool
+	Nested    bool // some member issues a nested request from its body or callback
 }
 
 func (m *Model) ClosureOf(c Consumer, lp []LeafParam) *Closure { return m.closureOf(c, lp, false) }
@@ -655,6 +685,11 @@ func (m *Model) closureOf(c Consumer, lp []LeafParam, must bool) *Closure {
 		}
 		cl.Fns[n.Fn] = true
 		params(Consumer{Scope: n.Origin, Fn: n.Fn}, n.LP)
+		if n.Re != nil && !must && n.Re.Scope < len(m.S) {
+			// what the nested request issued by the body / callback may execute
+			cl.Nested = true
+			params(Consumer{Scope: n.Re.Scope, Fn: n.Fn}, []LeafParam{{Key: n.Re.Key, Obj: -1}})
+		}
 	}
 	dec = func(d *MDec) {
 		if seenD[d] {
@@ -667,6 +702,11 @@ func (m *Model) closureOf(c Consumer, lp []LeafParam, must bool) *Closure {
 		}
 		cl.Fns[d.Fn] = true
 		params(Consumer{Scope: d.Scope, Self: d, Fn: d.Fn}, d.LP)
+		if d.Re != nil && !must && d.Re.Scope < len(m.S) {
+			cl.Nested = true
+			params(Consumer{Scope: d.Re.Scope, Self: d, Fn: d.Fn}, []LeafParam{{Key: d.Re.Key, Obj: -1}})
+			params(Consumer{Scope: d.Re.Scope, Fn: d.Fn}, []LeafParam{{Key: d.Re.Key, Obj: -1}})
+		}
 	}
 	params = func(c Consumer, lp []LeafParam) {
 		for _, p := range lp {
